@@ -26,7 +26,13 @@ CONFIG = dict(
                   'from Pipeline.Run; Run itself is not executed by this check)'],
     level_text='proof for the garbage-collection and hibernation stages (all plans, all distances) over line-by-line Gallina '
                'models tied to the Go functions by replay; the plan generator stage is validated per plan by a proved-sound checker',
-    level_note='see docs/C04.md',
+    level_note='Proved in Coq (no axioms), for all plans and all distances: C04_gc / C04_gc_any_order (collectGarbage model: sound lifecycle, '
+               'erasing deletes gives the input, for every outcome of the unstable sort), C04_hib (insertHibernateBoot model: booted before the '
+               'next use, never hibernated twice, never disposed while hibernated, nothing left hibernated, erasing gives the input), '
+               'C04_checker_sound (the validator run on every full plan of the real planner implies the lifecycle, merge and master-branch '
+               'clauses). Modelled, not verified: the two Go functions (Gallina models GC.v / Hibernate.v tied to them by replay, zero '
+               'mismatches required) and Pipeline.Run (Exec.v is its hand-written abstraction). Not proved: that generatePlan always emits a '
+               'plan satisfying pre_ok / c04_ok - validated per plan (exhaustive for <=5 commits x all hash orders x distances 0..8).',
     technique='machine-checked proof in Coq over Gallina models of collectGarbage/insertHibernateBoot + model/implementation '
               'correspondence replay + Coq-verified lifecycle checker on the plans of the real planner',
     extra_coverage=_extra,
